@@ -280,28 +280,29 @@ type lcConn struct {
 	inHandler   chan struct{}
 	release     chan struct{}
 
-	regs        []string
-	firstLine   chan struct{}
-	regDone     chan struct{}
-	eofCh       chan struct{}
-	readerEnd   chan struct{}
-	retCh       chan struct{} // closed when MockConnect has returned
-	paused      atomic.Bool
-	resume      chan struct{}
-	peerShut    atomic.Bool // the peer closed its own end
-	panicked    atomic.Bool // Connect panicked or never returned: never call into the client again
-	wmu         sync.Mutex  // log entry + write of the peer are one step (several goroutines write)
-	panicID     string
-	stalled     bool // the event after a recovered handler panic was not delivered
-	streamDone  chan struct{}
-	sendDone    chan struct{}
-	failWrites  atomic.Bool // the client's writes fail from now on (pipe transport)
-	snapshot    string      // tracked state when the first registration line was on the wire
-	ln          net.Listener
-	fdBase      int
-	tcpProblems []string
-	selfClosing atomic.Bool // the peer is about to close its own end (answering a QUIT)
-	sawEOF      atomic.Bool
+	regs           []string
+	firstLine      chan struct{}
+	regDone        chan struct{}
+	eofCh          chan struct{}
+	readerEnd      chan struct{}
+	retCh          chan struct{} // closed when MockConnect has returned
+	paused         atomic.Bool
+	resume         chan struct{}
+	peerShut       atomic.Bool // the peer closed its own end
+	panicked       atomic.Bool // Connect panicked or never returned: never call into the client again
+	wmu            sync.Mutex  // log entry + write of the peer are one step (several goroutines write)
+	panicID        string
+	noTeardownSend bool // sessions without AllowFlood: a Send from a handler would sit in the limiter
+	stalled        bool // the event after a recovered handler panic was not delivered
+	streamDone     chan struct{}
+	sendDone       chan struct{}
+	failWrites     atomic.Bool // the client's writes fail from now on (pipe transport)
+	snapshot       string      // tracked state when the first registration line was on the wire
+	ln             net.Listener
+	fdBase         int
+	tcpProblems    []string
+	selfClosing    atomic.Bool // the peer is about to close its own end (answering a QUIT)
+	sawEOF         atomic.Bool
 
 	problems []string // harness-level timeouts ("harness-timeout: ...")
 }
@@ -369,6 +370,17 @@ func (cn *lcConn) handle(cl *girc.Client, e girc.Event) {
 		cn.lifecycle = append(cn.lifecycle, t)
 		cn.mu.Unlock()
 		cn.log.add(t)
+		if !cn.noTeardownSend {
+			// the application sends from its CLOSED / DISCONNECTED handler: c.conn is still
+			// set, so the line is queued - and nobody will ever write it on this connection;
+			// it must not reach the next one
+			id := cn.id(95)
+			if t == "D" {
+				id = cn.id(96)
+			}
+			cn.log.add("s" + id)
+			cl.Cmd.Message("#out", id)
+		}
 		if t == "K" && cn.sp.place == "stream" {
 			// all four loops have stopped, the socket is still open: the server is still
 			// talking. (Asynchronously: on a pipe the second line finds no reader.)
@@ -1494,10 +1506,23 @@ func lcRunSession(specs []lcSpec) Result {
 			cn.handle(cl, e)
 		}
 	})
+	// a foreground ERROR handler that edits the event it was handed, in place: the handlers'
+	// events are copies, the ErrEvent Connect returns must still carry the server's text
+	c.Handlers.Add(girc.ERROR, func(_ *girc.Client, e girc.Event) {
+		for i := range e.Params {
+			e.Params[i] = "overwritten-by-handler"
+		}
+		if e.Source != nil {
+			e.Source.Name = "overwritten"
+		}
+		for k := range e.Tags {
+			e.Tags[k] = "overwritten"
+		}
+	})
 	var obs, sig, bad []string
 	var first *lcConn
 	for i, sp := range specs {
-		cn := &lcConn{sp: sp, letter: string(rune('a' + i)), log: log, c: c, ln: ln}
+		cn := &lcConn{sp: sp, letter: string(rune('a' + i)), log: log, c: c, ln: ln, noTeardownSend: !cfg.AllowFlood}
 		res := cn.run(&cur)
 		bad = append(bad, lcCheckConn(cn, res, first, fresh)...)
 		if lcIn(res.class, sp.allowed()) && res.returned {
